@@ -28,7 +28,10 @@ from harness.gen import c14_split as G
 
 RULE = ("case = reads file (FASTQ, gzipped FASTQ or BAM; 0-30*scale reads, duplicate names, BAM reads without sequence / "
         "mapped / unmapped) x haplotag list (2 or 4 columns, with or without header, none entries, absent names, rarely "
-        "duplicate names, unknown haplotype names or empty; 35% written with one of 18 layout perturbations: line ends, white space, "
+        "duplicate names, unknown haplotype names or empty; in half of the cases read names (in the reads and in the list, "
+        "also names absent from the reads) are drawn from everything SAM QNAME / a FASTQ title allow: leading / trailing "
+        "punctuation (# @ : / | = + …), names that look like a list header, a SAM header, `none`/`Hk`, numbers, up to 254 "
+        "characters, with a #-name moved to the first / second / last list line; 35% written with one of 21 layout perturbations: line ends, white space, "
         "blank / short / wide lines, header variants; 25% gzipped) x ploidy 2-4 (rarely 1) x (--output-h1/-h2 | -o... | rarely "
         "anomalous output options) x --output-untagged x pre-existing output files x "
         "--add-untagged x --discard-unknown-reads x --only-largest-block; non-trivial iff the CLI accepted the input and at "
@@ -83,14 +86,27 @@ def run_request(case, lens):
 def data_rows(case):
     """the data rows of the list as the oracle reads them (lines split at \\n, \\r\\n, \\r; a first line starting with
     '#' is the header; columns = tab-separated fields of the line without surrounding white space)"""
-    if case.get("text") is None:
-        return case["rows"]
-    lines = re.split(r"\r\n|\r|\n", case["text"])
+    lines = re.split(r"\r\n|\r|\n", G.list_text(case))
     if lines and lines[-1] == "":
         lines.pop()
     if lines and lines[0].startswith("#"):
         lines = lines[1:]
     return [l.strip().split("\t") for l in lines]
+
+
+def hash_name_lines(case, names):
+    """where in the list file (1-based physical line classes) a read of the input whose name starts with '#' is named"""
+    lines = re.split(r"\r\n|\r|\n", G.list_text(case))
+    if lines and lines[-1] == "":
+        lines.pop()
+    have = set(names)
+    out = set()
+    for i, l in enumerate(lines):
+        c = l.strip().split("\t")
+        if c[0].startswith("#") and c[0] in have and len(c) > 1:
+            pos = "line1" if i == 0 else "line2" if i == 1 else "last" if i == len(lines) - 1 else "middle"
+            out.add(pos + ("-none" if c[1] == "none" else "-tagged"))
+    return out
 
 
 def admissible_tables(case):
@@ -356,6 +372,17 @@ def judge(ctx, case, res, model):
     dup_reads = len(set(names)) < len(names)
     ctx.dist("quirk", case.get("quirk", "-")); ctx.dist("list_gz", bool(case.get("list_gz")))
     ctx.dist("preexisting_outputs", bool(case.get("pre")))
+    ctx.dist("names", case.get("names", "plain"))
+    for nm in set(names):
+        ctx.dist("name_first_char", nm[0] if not nm[0].isalnum() else "alnum")
+        ctx.dist("name_last_char", nm[-1] if not nm[-1].isalnum() else "alnum")
+        ctx.dist("name_looks_like", "header" if nm.startswith("#readname") else "none/Hk" if re.fullmatch(r"(?i)none|H\d*", nm)
+                 else "sam-header" if re.fullmatch(r"@(HD|SQ)", nm) else "long" if len(nm) > 100 else "-")
+    for pos in hash_name_lines(case, names) or {"-"}:
+        ctx.dist("hash_name_listed_at", pos)
+        if pos.startswith("line1") and case.get("header") is None and case.get("quirk") not in ("leading-space", "blank-line"):
+            ctx.observe("a headerless list whose first line names a read starting with '#': the line is taken for the header "
+                        "(documented rule for line 1), the read counts as unlisted")
     if case["fmt"] == "bam":
         ctx.dist("bam_flags", sum(1 for r in case["reads"] if r.get("flag")) > 0)
         ctx.dist("bam_cigar_ops", "".join(sorted({"MIDNSHP=X"[op] for r in case["reads"] for op, _ in (r.get("cigar") or [])})) or "-")
